@@ -48,6 +48,8 @@ type vredis struct {
 	// getDelay: every GET is answered this much later (the connection's later commands queue behind it, as with a slow server)
 	getDelay time.Duration
 	getLog   []vredisGet
+	// setHang: SET commands are taken and never answered (the connection's later replies queue behind them, as with a hung server)
+	setHang bool
 }
 
 type vredisGet struct {
@@ -149,6 +151,15 @@ func (s *vredis) serve(c net.Conn) {
 				out = "$-1\r\n"
 			}
 		case "SET":
+			for {
+				s.mu.Lock()
+				h := s.setHang
+				s.mu.Unlock()
+				if !h {
+					break
+				}
+				time.Sleep(50 * time.Millisecond)
+			}
 			set := vredisSet{key: a[1], px: -1, at: time.Now()}
 			for i := 3; i < len(a); i++ {
 				switch strings.ToUpper(a[i]) {
